@@ -290,3 +290,37 @@ func VerifC11_SingleProtocolRoundTrip() {
 		verif_Assert(ids[0] <= ids[1] && (ids[0] == p.p.ID() || ids[0] == q.p.ID()) && (ids[1] == p.p.ID() || ids[1] == q.p.ID()), "in ascending ID order")
 	}
 }
+
+// C11 (a decoded value is a value): a Metadata that was decoded is copied (it is
+// a struct, passed and stored by value); decoding other bytes into the same
+// variable afterwards leaves the copy as it was — still equal to its original,
+// every protocol retrievable, re-encoding to the bytes it was decoded from.
+func VerifC11_DecodedCopySurvivesReuseOfTheDecoder() {
+	c11representativeCodes = true
+	defer func() { c11representativeCodes = false }()
+	mk := func() (Metadata, []byte) {
+		k := verif_Choose("count", 1, 2)
+		list := make([]Protocol, k)
+		for i := 0; i < k; i++ {
+			list[i] = c11mkProto(i).p
+		}
+		md := Default.New(list...)
+		enc, err := md.MarshalBinary()
+		verif_Assume(err == nil)
+		return md, enc
+	}
+	origA, encA := mk()
+	_, encB := mk()
+	md := Default.New()
+	verif_Assert(md.UnmarshalBinary(encA) == nil, "own encoding decodes")
+	first := md // a copy of the decoded value
+	derr := md.UnmarshalBinary(encB)
+	verif_Reach("decoded again")
+	_ = derr
+	verif_Assert(first.Equal(origA), "the earlier decoded copy still equals its original")
+	again, err := first.MarshalBinary()
+	verif_Assert(err == nil && bytes.Equal(again, encA), "and re-encodes to the bytes it was decoded from")
+	for _, id := range origA.Protocols() {
+		verif_Assert(first.Get(id) != nil, "every protocol of it is still retrievable")
+	}
+}
